@@ -534,9 +534,21 @@ func formatValue(v interface{}) string {
 		return fmt.Sprintf("\"%s\"", v.Format(timeFormat))
 	case *Condition:
 		return v.String()
+	case float64:
+		return formatFloat(v)
 	default:
 		return fmt.Sprintf("%v", v)
 	}
+}
+
+// formatFloat prints v in the only notation the grammar reads back as a
+// float: plain decimal digits with a decimal point, no exponent.
+func formatFloat(v float64) string {
+	s := strconv.FormatFloat(v, 'f', -1, 64)
+	if !strings.Contains(s, ".") {
+		s += ".0"
+	}
+	return s
 }
 
 // CopyArgs returns a copy of m.
@@ -551,12 +563,7 @@ func CopyArgs(m map[string]interface{}) map[string]interface{} {
 func joinInterfaceSlice(a []interface{}) string {
 	other := make([]string, len(a))
 	for i := range a {
-		switch v := a[i].(type) {
-		case string:
-			other[i] = fmt.Sprintf("%q", v)
-		default:
-			other[i] = fmt.Sprintf("%v", v)
-		}
+		other[i] = formatValue(a[i])
 	}
 	return "[" + strings.Join(other, ",") + "]"
 }
